@@ -100,7 +100,7 @@ Proof.
   intros l ps hc w st' e st H.
   assert (Hi : Inv st) by (apply reachable_inv_actions; split; [apply WriteP.inv_shape_init | apply StructP.inv_struct_init]).
   assert (Hr : Inv_reg st) by (apply reachable_inv_reg_actions; [split; [apply WriteP.inv_shape_init | apply StructP.inv_struct_init] | apply inv_reg_init]).
-  pose proof (write_keeps hc st w Hi Hr) as K. rewrite H in K. cbn [fst] in K. destruct K as (S & P & L & K).
+  pose proof (write_keeps hc st w Hi Hr) as K. rewrite H in K. cbn [fst] in K. destruct K as (S & P & L & K & _).
   split; [exact S|]. split; [exact P|]. split; [exact L|]. intros i idx. destruct (K i) as [Et Kv]. destruct (Kv idx) as [V U].
   cbv zeta. split; [exact Et|]. repeat split.
   - intros Ht Hd. destruct V as [E|[_ [F|D]]]; [exact E | congruence | congruence].
